@@ -230,3 +230,9 @@ Lemma gen_sizes :
   ext_ttl_keep_mask = 16777215 /\ ext_rcode_shift = 4 /\ ext_ttl_shift = 24 /\
   compressible_q_over = 1 /\ compressible_an_over = 0 /\ compressible_ns_over = 0 /\ compressible_ex_over = 0.
 Proof. repeat split; reflexivity. Qed.
+
+(* the record shim answers Header() with ITS OWN header copy, whatever record it wraps (the
+   embedded dns.RR is an interface value and is not even part of the translated Record): this
+   is what makes PackRR's Rdlength write land in the pool — Model.rrview_header = WShim *)
+Lemma gen_rrview_header : forall v, go_rrView_Header v = T_rrView_hdr v.
+Proof. reflexivity. Qed.
